@@ -252,15 +252,15 @@ def names_replay(ctx, exe, results):
 # ================================================================================================
 def views_jobs(ctx):
     thorough = ctx.tier == "thorough"
-    t2 = "TypesAll" if thorough else "Types2"
-    t3 = "TypesAll" if thorough else "Types3"
+    t2 = "Types3" if thorough else "Types2"
     jobs = [
         # exhaustive model checking (no history variable)
         Job("views-mc-pairs", "Views", views_cfg(t2, "Pats3", "UnitSel2", "MSels4" if thorough else "MSels3", "Shapes2",
                                                  "INamesAll", "IUnits2" if thorough else "IUnit1", "Meters2", "Attrs1",
                                                  2, 1, False, VIEW_INVS), workers=4, coverage=True),
-        Job("views-mc-select", "Views", views_cfg(t2, "PatsAll", "UnitSelAll", "MSelsAll", "Shape1", "INamesAll",
-                                                  "IUnitsAll", "MetersAll", "Attrs1", 1, 1, False, VIEW_INVS), workers=3),
+        Job("views-mc-select", "Views", views_cfg(t2, "PatsAll", "UnitSelAll", "MSelsAll",
+                                                  "Shape1", "INamesAll", "IUnitsAll", "MetersAll", "Attrs1", 1, 1, False,
+                                                  VIEW_INVS), workers=4 if thorough else 3),
         Job("views-mc-shape", "Views", views_cfg("TypesAll", "Pats3" if thorough else "Pats2",
                                                  "UnitSel2" if thorough else "UnitSelAny", "MSelAny", "ShapesAll", "IName1",
                                                  "IUnit1", "Meter1", "AttrsAll", 1, 1, False, VIEW_INVS), workers=3),
@@ -269,7 +269,7 @@ def views_jobs(ctx):
                                                  "IUnitsAll", "MetersAll", "Attrs1", 1, 0, False, "EmitSweep")),
         Job("views-g-shape", "Views", views_cfg("TypesAll", "PatAllOnly", "UnitSelAny", "MSelAny", "ShapesAll", "IName1",
                                                 "IUnit1", "Meter1", "AttrsAll", 1, 0, False, "EmitSweep")),
-        Job("views-g-pairs", "Views", views_cfg(t2, "Pats3", "UnitSelAny" if not thorough else "UnitSel2",
+        Job("views-g-pairs", "Views", views_cfg("Types2", "Pats3", "UnitSelAny" if not thorough else "UnitSel2",
                                                 "MSels2" if not thorough else "MSels4", "Shapes2", "INamesAll", "IUnit1",
                                                 "MetersAB" if not thorough else "Meters2", "Attrs1", 2, 0, False, "EmitSweep")),
         # random view pairs over the larger domain, and random multi-instrument behaviours of the machine
